@@ -71,19 +71,28 @@ def classification(repo, res, a):
     res.check(len(look) == 1 and norm(look[0].value) == "self._ufunc_registry[ufunc]", "lookup", a.fn.where(), "the checked unit rule must be the registry entry of the ufunc being applied", rid=r1)
     # 3-input form: only clip, every unit-carrying input converted to the first input's unit
     fn = a.fn
-    ok = False
-    t3 = a.nary[0].test if len(a.nary) == 1 and isinstance(a.nary[0], ast.If) else None
-    is_clip_test = isinstance(t3, ast.Compare) and len(t3.ops) == 1 and isinstance(t3.ops[0], ast.Is) and norm(t3.left) == "ufunc" and a.mod.qual(t3.comparators[0]) == "numpy.clip"
-    if is_clip_test:
-        blk = a.nary[0]
-        conv = [c for c in ast.walk(blk) if isinstance(c, ast.Call) and isinstance(c.func, ast.Attribute) and c.func.attr in ("to", "in_units") and norm(c.args[0]) == "inputs[0].units"]
-        loops = [n for n in blk.body if isinstance(n, ast.For) and norm(n.iter) == "inputs"]
-        other = blk.orelse
-        ok = len(conv) == 1 and len(loops) == 1 and len(other) == 1 and is_raise_of(other[0], "RuntimeError")
+    # decided on paths (independent of how the branch is laid out): every path of the n-ary region on which the ufunc
+    # is not np.clip ends in RuntimeError; on the clip paths every unit-carrying input is converted into the first
+    # input's unit inside the loop over the inputs
+    clip_names = [n_.id for n_ in ast.walk(ast.Module(body=a.nary, type_ignores=[])) if isinstance(n_, ast.Name) and a.mod.qual(n_) == "numpy.clip"]
+    ok = bool(clip_names)
+    n_other = 0
+    if ok:
+        ctext = f"ufunc is {clip_names[0]}"
+        for p_ in enum_paths(a.nary):
+            fm_ = dict((t, tr) for t, tr, _ in path_facts(p_))
+            if fm_.get(ctext) is False:
+                n_other += 1
+                ok &= p_[-1][0] == "raise" and is_raise_of(p_[-1][1], "RuntimeError")
+        ok &= n_other >= 1
+        region = ast.Module(body=a.nary, type_ignores=[])
+        conv = [c for c in ast.walk(region) if isinstance(c, ast.Call) and isinstance(c.func, ast.Attribute) and c.func.attr in ("to", "in_units") and c.args and norm(c.args[0]) == "inputs[0].units"]
+        loops = [n_ for n_ in ast.walk(region) if isinstance(n_, ast.For) and norm(n_.iter) == "inputs"]
+        ok &= len(conv) == 1 and len(loops) == 1
         if ok:
             lp = loops[0]
-            inner = lp.body[0]
-            ok = isinstance(inner, ast.If) and norm(inner.test) == f"isinstance({norm(lp.target)}, unyt_array)" and any(c is conv[0] for c in ast.walk(ast.Module(body=inner.body, type_ignores=[])))
+            guards = [i_ for i_ in ast.walk(lp) if isinstance(i_, ast.If) and norm(i_.test) == f"isinstance({norm(lp.target)}, unyt_array)" and any(c is conv[0] for c in ast.walk(ast.Module(body=i_.body, type_ignores=[])))]
+            ok = len(guards) == 1
     res.check(ok, "three-input-form", fn.where(), "with three inputs only clip is accepted and every quantity is converted to the first input's unit (raises on mismatch)", rid=r1)
 
 
@@ -166,12 +175,14 @@ def eq_ne(repo, res, a):
     er = [n for n in ast.walk(a.dim_if) if isinstance(n, ast.If) and norm(n.test) == "ufunc is equal"]
     ok = len(er) == 1 and norm(er[0].body[0]) == "func = np.zeros_like" and norm(er[0].orelse[0]) == "func = np.ones_like"
     res.check(ok, "early-return-polarity", fn.where(er[0]) if er else fn.where(), "equal -> zeros_like, not_equal -> ones_like", rid=r3)
-    blk = [n for n in ast.walk(a.dim_if) if isinstance(n, ast.If) and norm(n.test) == "ufunc in (equal, not_equal)"]
-    ok = False
-    if len(blk) == 1:
-        rets = [n for n in ast.walk(blk[0]) if isinstance(n, ast.Return)]
-        mk = [n for n in blk[0].body if isinstance(n, ast.Assign) and norm(n.targets[0]) == "ret"]
-        ok = len(rets) == 1 and norm(rets[0].value) == "ret" and len(mk) == 1 and norm(mk[0].value) == "func(np.asarray(inp1), dtype=bool)"
+    # (that a value is returned only for == / != is C01-R2; here: what is returned) - independent of how the branch is
+    # laid out: every return inside the dimension-mismatch nest hands back `ret`, which is built once by the chosen
+    # zeros_like / ones_like and afterwards only converted with bool()
+    rets = [n for n in ast.walk(a.dim_if) if isinstance(n, ast.Return)]
+    mk = [n for n in ast.walk(a.dim_if) if isinstance(n, ast.Assign) and norm(n.targets[0]) == "ret"]
+    build = [m_ for m_ in mk if norm(m_.value) == "func(np.asarray(inp1), dtype=bool)"]
+    other = [m_ for m_ in mk if m_ not in build and norm(m_.value) != "bool(ret)"]
+    ok = len(rets) >= 1 and all(r_.value is not None and norm(r_.value) == "ret" for r_ in rets) and len(build) == 1 and not other
     res.check(ok, "early-return-value", fn.where(), "the early return is a boolean array built by zeros_like/ones_like", rid=r3)
 
 
